@@ -15,17 +15,22 @@ from sa.srcmodel import dotted
 from sa.util import render_methods
 
 from checks.blank import check_blank_flags
+from checks.shared import check_context_manager_pairing
+from checks.shared import check_trim_carry_ownership
 
 META = {
     "technique": "output-size non-interference taint (written-character counts may not reach a branch condition); blank-flag "
     "soundness; table agreement along lexer symbol -> TokenType -> parser arm -> Expression class -> printed symbol; "
     "ordering extraction of the precedence constants; shape table of the comparison/logical evaluators; sibling "
-    "agreement of the two primitive parsers",
-    "level_text": "Decides five shape conditions without which compositionality fails, not the semantics: no render method "
+    "agreement of the two primitive parsers; scope push/pop typestate over RenderContext's context managers; trim-carry "
+    "ownership dataflow over every Tag.parse",
+    "level_text": "Decides seven shape conditions without which compositionality fails, not the semantics: no render method "
     "decides control flow from how many characters a sibling wrote; no node that writes text is treated as blank; every "
     "binary operator has a precedence, a parser arm building its own class, and prints the symbol that lexes back to it; "
     "the precedence constants are ordered as documented (`and` binds tighter than `or`, comparisons tighter than both); "
-    "each comparison class calls the value-semantics helper with the documented operand order, identically in both twins. "
+    "each comparison class calls the value-semantics helper with the documented operand order, identically in both twins; "
+    "block scopes are popped on every exit of extend()/loop() (shared with C07.R1); every block of a multi-block tag is parsed "
+    "with the whitespace-control carry of the tag right before it (shared with C18.R4). "
     "Truthiness tables, loop slicing arithmetic, stringification and trim results are value-level and NOT decided.",
     "level_note": "Oracle for precedence: docs/tag_reference.md and the constants' own names; the value-semantics helpers "
     "(is_truthy/_eq/_lt/_contains) are trusted as given.",
@@ -304,3 +309,9 @@ def run(prog: Program, res: Result) -> None:  # noqa: PLR0912, PLR0915
                 res.ok("C01.R5", site, what, "shape matches")
             else:
                 res.fail("C01.R5", file=EX, line=m.node.lineno, qualname=f"{cname}.{mname}", construct=f"{cname}.{mname} returns {rets} with {binds}", message=f"{cname}.{mname} computes `{rets}` (locals {binds}); documented shape is `{want[0]}`", what=what)
+
+    # ------------------------------------------------------------------ R6 / R7 shared structural rules
+    res.rule("C01.R6", "variable scoping composes: in RenderContext's context managers every scope push / loop append / template swap is undone on all exits, so a name bound by a block is gone after it however the block is left (shared with C07.R1)")
+    check_context_manager_pairing(prog, res, "C01.R6")
+    res.rule("C01.R7", "explicit whitespace control applies to the text next to the marked tag: each parse_block of a multi-block tag (if/elsif/else, case/when, for/else …) is entered with the trim carry of the tag immediately before that block (shared with C18.R4)")
+    check_trim_carry_ownership(prog, res, "C01.R7")
